@@ -53,6 +53,9 @@ def _lam(spec, terms, spin):
         return lambda v: 2 * abs(v) + 1
     if spec == "abs/4":
         return lambda v: abs(v) / 4
+    if spec == "1-v":
+        # a penalty that looks at the *signed* coefficient it is given: adequate (>= |v|) exactly for v <= 0
+        return lambda v: 1 - v
     bf = _boolean_form(terms, spin)
     if spec == "big":
         return sum(abs(v) for v in bf.values()) + 1
@@ -352,12 +355,35 @@ def _gen_ext(ctx):
     return _gen(ctx, "c01.ext", [None] + SMALL_LAMS + ["abs", "big"], 700, 14000)
 
 
+def _signed_ok(case):
+    """the sign-sensitive penalty lambda v: 1 - v is adequate when every non-constant coefficient of the boolean form is
+    negative (the library hands the penalty the signed coefficient of the term it reduces)"""
+    bf = _boolean_form(case["terms"], case["type"] in SPIN_M)
+    return all(v < 0 for k, v in bf.items() if k)
+
+
+def _with_signed(ctx, salt, quick_n, thorough_n):
+    # boolean models whose higher-order terms are all negative, reduced with the sign-sensitive penalty
+    for tname in ("PUBO", "PCBO"):
+        for terms in ({('a', 'b', 0): -2, ('a', 0, 1): -1}, {('a', 'b', 0, 1): -3, ('a', 'b'): -1, (): 2},
+                      {(0, 1, 'a'): -1, (0, 1, 'b'): -10, (1,): -8}):
+            for (t, deg) in (("to_qubo", None), ("to_quso", None), ("to_pubo", 2), ("to_puso", 2)):
+                yield {"type": tname, "terms": terms, "build": "ctor", "target": t, "deg": deg, "lam": "1-v", "pairs": None}
+    for case in _gen(ctx, salt, SAFE_LAMS + ["1-v", "1-v"], quick_n, thorough_n):
+        if case["lam"] == "1-v" and not _signed_ok(case):
+            neg = {k: (-abs(v) if k else v) for k, v in case["terms"].items()}
+            case = dict(case, terms=neg)
+            if not _signed_ok(case):
+                case = dict(case, lam=None)
+        yield case
+
+
 def _gen_under(ctx):
-    return _gen(ctx, "c01.under", SAFE_LAMS, 700, 14000)
+    return _with_signed(ctx, "c01.under", 700, 14000)
 
 
 def _gen_min(ctx):
-    return _gen(ctx, "c01.min", SAFE_LAMS, 700, 14000)
+    return _with_signed(ctx, "c01.min", 700, 14000)
 
 
 def _gen_deg(ctx):
